@@ -182,8 +182,26 @@ func (o Op) IsWrite() bool {
 	return false
 }
 
+// other-database statements: reado inso updo delo (table otherdb.t, qualified name)
+func (o Op) IsOther() bool {
+	switch o.Kind {
+	case "reado", "inso", "updo", "delo":
+		return true
+	}
+	return false
+}
+
+func (o Op) onMain() Op {
+	m := o
+	m.Kind = strings.TrimSuffix(o.Kind, "o")
+	return m
+}
+
 // SQL text of the op against table tbl with the given column names.
 func (o Op) SQL(tbl string, cols []string) string {
+	if o.IsOther() {
+		return o.onMain().SQL("otherdb.t", cols)
+	}
 	switch o.Kind {
 	case "begin":
 		return "BEGIN"
@@ -220,6 +238,12 @@ func (o Op) SQL(tbl string, cols []string) string {
 // Wire is the request line for the Lean driver.
 func (o Op) Wire() string {
 	p := strconv.Itoa(o.S) + " "
+	if o.IsOther() {
+		w := o.onMain().Wire() // "<s> ins ..." -> "<s> inso ..."
+		f := strings.SplitN(w, " ", 3)
+		f[1] += "o"
+		return strings.Join(f, " ")
+	}
 	switch o.Kind {
 	case "begin", "commit", "rollback", "read", "dcommit":
 		return p + o.Kind
